@@ -10,6 +10,12 @@ Shape (C): full Cartesian product
     a map with NaN / +inf / -inf at three fixed pixels -- summed by some positions, masked / zero-weight for others --
     and, in the blindness relations, 1e30 resp. NaN / +inf / -inf (data and error, cycled) at EVERY masked resp.
     not-summed pixel -- not summed = masked, outside the aperture, weight 0 or weight < 0 (rounding residue))
+and, as a separate axis on a stated sub-product (finite values), the STORAGE REPRESENTATION of image and error map:
+    dtype / byte order (float32, float16, big-endian float64, int16, uint8, int64, bool; thorough: 9 more) and, for
+    float64, memory layout / container (Fortran order, strided view of a larger buffer, nested Python list) x value
+    variant (generic; +B/-B at two adjacent central pixels: cancels in exact arithmetic, not in a narrow accumulator;
+    +P/+P with 2P beyond the range of the dtype) -- the oracle is the same direct loop in float64 arithmetic on the
+    stored values: the storage dtype says which real numbers the pixels hold, not how they are to be added,
 executed through ``PixelAperture.do_photometry`` / ``area_overlap`` and, on a
 stated sub-product, through every other call form (scalar aperture one at a
 time, ``aperture_photometry`` single / list of two apertures / NDData /
@@ -37,6 +43,10 @@ import numpy as np
 from ..ref import aperture_ref as R
 from ..runner import Acc
 
+# storage representations of image / error map ('dtype' or 'dtype:layout'), see run_reprs
+REPRS_QUICK = ['<f4', '<f2', '>f8', '<i2', 'u1', '<i8', 'bool', '<f8:F', '<f8:strided', '<f8:list']
+REPRS_MORE = ['>f4', '>f2', 'i1', '>i2', '<u2', '<i4', '<u4', '>i8', '<u8', '<f4:strided', '<i2:F']
+
 PROPERTY = 'C02'
 LEVEL = 'exploration'
 RULE = ('full Cartesian product of image shape x aperture spec x method x position list (8x8 axis alphabet) x mask '
@@ -52,7 +62,7 @@ RULE = ('full Cartesian product of image shape x aperture spec x method x positi
         'non-finite (data variant, error map) pair x every call-form mask); and on finite data x masks {None, centre pixel} '
         '(thorough: all three) the re-assignment history relation: same class 1.5x larger, rotated by 0.9 rad, at the reversed '
         'position list, used, then every parameter of the unit\'s aperture assigned one at a time in both orders '
-        '(parameters then positions / positions then parameters), compared after every assignment with a fresh aperture); a case is non-trivial when at least one unmasked in-image pixel has positive aperture '
+        '(parameters then positions / positions then parameters), compared after every assignment with a fresh aperture); storage-representation axis (finite values; run_reprs / repr_product): image and error held as ' + ', '.join(REPRS_QUICK) + ' (thorough: + ' + ', '.join(REPRS_MORE) + ') x value variants {generic, cancel (+B/-B at the centre pixel and its raster successor; signed dtypes), pile (+P/+P there, 2P beyond the dtype range; not for float64 forms)} x every unit (shape x aperture x method) x 64 positions, do_photometry judged by the direct loop in float64 on the stored values (same RTOL), on the first bright variant also with the centre pixel masked and through ApertureMask.get_values / multiply (bit-exact w * float64(value), float64 result) and aperture_photometry == do_photometry (thorough: every variant x the three call-form masks x every form, plus (representation, float64 error) and (float64 image, error representation) pairs without mask); how many narrow-float cases would differ beyond tolerance under an accumulation in the image dtype is measured (coverage.counters repr_*); a case is non-trivial when at least one unmasked in-image pixel has positive aperture '
         'weight (measured from the registered weights); how many (unit, position) pairs have an in-image pixel with a negative / '
         'tiny positive rounding-residue weight is measured and reported in coverage.counters (residue weights are not assumed to '
         'occur: they are whatever to_mask() returns); cases are distinct by construction (distinct product indices)')
@@ -64,6 +74,10 @@ ASSUMPTIONS = ['the per-pixel weights returned by Aperture.to_mask() and its bbo
                'weight should be 0 is C01\'s question); one whose weight is a negative residue is not',
                'non-finite values in excluded pixels: NaN, +inf, -inf and the finite 1e30; other huge values are not exercised',
                'sky apertures are exercised with one distortion-free TAN WCS only',
+               'storage representations: the listed dtypes / byte orders / layouts with finite values; error map in the same '
+               'representation as the image (thorough: also against float64); NaN/inf in narrow float images, float128 / complex / '
+               'object dtypes, MaskedArray images and narrow dtypes inside Quantity / NDData (C15 owns those forms) are not exercised; '
+               'integer magnitudes are capped at 2^62 (signed) / 2^63 (unsigned) so that the stored value is exact in float64',
                'masks are boolean arrays (the quantifier of the property); list / integer masks are not exercised',
                'histories of an aperture object: one used state followed by single assignments of every public parameter '
                '(float values; theta as float radians); the representation of theta and longer histories belong to C01 / C09']
@@ -203,7 +217,7 @@ GROUP = {'do_photometry': 'main', 'area_overlap': 'main', 'list-call': 'forms', 
          'get_values': 'mask-methods', 'multiply': 'mask-methods', 'mask-methods': 'mask-methods', 'blind': 'blind',
          'linear': 'linear', 'table': 'table', 'aperture_photometry': 'table', 'aperture-list': 'table', 'nddata': 'table',
          'nddata-unit': 'table', 'quantity': 'table', 'sky': 'table', 'error-nonfinite': 'error-nonfinite',
-         'reassign': 'reassign'}
+         'reassign': 'reassign', 'repr': 'repr'}
 
 
 class Ctx:
@@ -715,6 +729,244 @@ def run_table_forms(acc, ctx, bits, variant, multi, mask, u, NDData, StdDevUncer
 
 
 # ---------------------------------------------------------------------------
+# storage-representation axis: the SAME kind of image held in another dtype / byte order / memory layout / container
+# ---------------------------------------------------------------------------
+# A representation is 'dtype' or 'dtype:layout'.  The property quantifies over all 2-D images: the storage dtype only
+# says which real numbers the pixels hold, the sums are sums of real numbers (float64 arithmetic on the stored values).
+# (REPRS_QUICK / REPRS_MORE are defined at the top of the module: RULE quotes them)
+
+
+def reprs(tier):
+    return REPRS_QUICK + (REPRS_MORE if tier == 'thorough' else [])
+
+
+def repr_dtype(rep):
+    return np.dtype(rep.partition(':')[0])
+
+
+def repr_class(rep):
+    """the part of a violation site that names the representation: classes, not single dtypes (one defect, one key)"""
+    dt, _, layout = rep.partition(':')
+    d = np.dtype(dt)
+    c = {'f': 'float-narrow' if d.itemsize < 8 else ('float64' if d.isnative else 'float64-byteswapped'),
+         'i': 'signed-int', 'u': 'unsigned-int', 'b': 'bool'}[d.kind]
+    return c + ('-' + layout if layout else '')
+
+
+def dvariants(rep):
+    """pixel-value variants of a representation, simplest first.
+    generic: seed-generic reals converted to the dtype (integers: rounded; unsigned: of the absolute value; bool: > 3);
+    cancel : the same with +B / -B at the centre pixel and its raster successor (signed dtypes only) -- the true sum of
+             an aperture that holds both is the faint rest, an accumulation in a narrow dtype loses it;
+    pile   : +P / +P at the same two pixels with 2P beyond the range of the dtype (float16 4e4, float32 3e38, integers:
+             the dtype maximum, capped at 2^62 signed / 2^63 unsigned so that the value is exact in float64
+             ) -- the true sum is finite, an accumulation in the dtype overflows / wraps.
+    float64 representations (byte-swapped, Fortran order, strided view, nested list) have the generic variant only."""
+    d = repr_dtype(rep)
+    if d.kind == 'f' and d.itemsize == 8:
+        return ['generic']          # float64 in another byte order / layout / container: no narrower accumulator to expose
+    return ['generic', 'pile'] if d.kind in 'ub' else ['generic', 'cancel', 'pile']
+
+
+def bright(dt, variant):
+    """-> the magnitude stored at the two special pixels"""
+    if dt.kind == 'b':
+        return True
+    if dt.kind in 'iu':
+        return min(int(np.iinfo(dt).max), 2 ** 62 if dt.kind == 'i' else 2 ** 63)
+    if dt.itemsize == 2:
+        return 3.0e4 if variant == 'cancel' else 4.0e4
+    if dt.itemsize == 4:
+        return 3.0e8 if variant == 'cancel' else 3.0e38
+    return 3.0e8
+
+
+def stored_images(shape, seed, rep, variant):
+    """-> (data object, error object) exactly as handed to photutils, (data, error) as nested lists of Python floats =
+    the stored values converted to float64 (exact for every dtype of the alphabet)."""
+    dt, _, layout = rep.partition(':')
+    dt = np.dtype(dt)
+    ny, nx = shape
+    base = images(shape, seed)
+    g, h = base['finite'], 4.0 * base['err']          # errors 2 .. 6: distinct values also after rounding to integers
+    if dt.kind == 'f':
+        d, e = g.astype(dt), h.astype(dt)
+    elif dt.kind == 'i':
+        lim = min(int(np.iinfo(dt).max), 2 ** 62)
+        d, e = np.clip(np.rint(g), -lim, lim).astype(dt), np.rint(h).astype(dt)
+    elif dt.kind == 'u':
+        d, e = np.rint(np.abs(g)).astype(dt), np.rint(h).astype(dt)
+    else:
+        d, e = g > 3.0, h > 4.0
+    if variant != 'generic':
+        b = bright(dt, variant)
+        p1 = (ny // 2) * nx + nx // 2
+        p2 = (p1 + 1) % (ny * nx)
+        d[p1 // nx, p1 % nx] = b
+        e[p1 // nx, p1 % nx] = b
+        if p2 != p1:
+            d[p2 // nx, p2 % nx] = -b if variant == 'cancel' else b
+            e[p2 // nx, p2 % nx] = b
+    dl, el = d.astype(np.float64).tolist(), e.astype(np.float64).tolist()
+    out = []
+    for a in (d, e):
+        if layout == 'F':
+            a = np.asfortranarray(a)
+        elif layout == 'strided':
+            # every second element of a larger buffer whose other elements hold a different value (1 / True)
+            big = np.ones((2 * ny + 1, 2 * nx + 1), dtype=a.dtype)
+            big[1::2, 1::2] = a
+            a = big[1::2, 1::2]
+        elif layout == 'list':
+            a = a.tolist()
+        elif layout:
+            raise ValueError(rep)
+        out.append(a)
+    return out[0], out[1], dl, el
+
+
+def repr_product(ctx, tier):
+    """-> [(image repr, error repr, value variant, mask bits, forms)] -- the stated (sub-)product of the storage axis.
+    forms: 'do' = do_photometry on the whole position list (direct oracle), 'mask' = ApertureMask.get_values (+ multiply
+    when there is no mask) at every position, 'table' = aperture_photometry.
+    quick   : every representation x every value variant, error in the same representation, no mask: 'do'; on the
+              brightest-first variant of the representation (the second of dvariants(), the only one for float64
+              forms) also 'mask' and 'table', and 'do' once more with the centre-pixel mask (it hides the +B / +P pixel).
+    thorough: every representation x every value variant x the three call-form masks, error in the same
+              representation, every form; on no mask additionally (representation, float64 error) and
+              (float64 image, error in the representation): 'do'."""
+    fm = form_masks(ctx)
+    out = []
+    for rep in reprs(tier):
+        dvs = dvariants(rep)
+        first_bright = dvs[min(1, len(dvs) - 1)]
+        for dv in dvs:
+            if tier == 'thorough':
+                for bits in fm:
+                    out.append((rep, rep, dv, bits, ('do', 'mask', 'table')))
+                out.append((rep, '<f8', dv, None, ('do',)))
+                out.append(('<f8', rep, dv, None, ('do',)))
+            else:
+                out.append((rep, rep, dv, None, ('do', 'mask', 'table') if dv == first_bright else ('do',)))
+                if dv == first_bright:
+                    out.append((rep, rep, dv, fm[1], ('do',)))
+    return out
+
+
+def run_reprs(acc, ctx, tier, only_case=None):
+    """The storage-representation axis (finite values): do_photometry (whole position list) judged by the direct pixel
+    loop on the stored values converted to float64 -- tolerance as everywhere in this module: RTOL * sum w|d|, the
+    accumulation-order bound of a float64 sum --; ApertureMask.get_values / multiply bit-exact (w * float64(d), one
+    product per pixel); aperture_photometry == do_photometry (bit-exact)."""
+    from photutils.aperture import aperture_photometry
+    npos = len(ctx.pos)
+    dense = {}
+    for rep, erep, dv, bits, forms in repr_product(ctx, tier):
+        if only_case and (only_case['repr'], only_case['err_repr'], only_case['dvariant'], only_case['mask_bits']) != (rep, erep, dv, bits):
+            continue
+        data, _, dl, _ = stored_images(ctx.shape, ctx.seed, rep, dv)
+        _, err, _, el = stored_images(ctx.shape, ctx.seed, erep, dv)
+        mask = R.bits_to_mask(bits, ctx.shape)
+        icls, ecls = repr_class(rep), repr_class(erep)
+        is_list = isinstance(data, list)
+        snap = None if is_list else (data.copy(), err.copy())
+
+        def case(k, form):
+            return dict(ctx.case(k, bits, 'finite', True, form), group='repr', repr=rep, err_repr=erep, dvariant=dv)
+
+        def rcall(form, fn):
+            try:
+                return fn()
+            except Exception as exc:  # noqa: BLE001
+                acc.violation('raises', f'{form}:image-{icls}:error-{ecls}:{type(exc).__name__}', case(0, form), repr(exc),
+                              'a result for every position')
+                return None
+
+        res = rcall('do_photometry', lambda: ctx.aper.do_photometry(data, error=err, mask=mask, **ctx.kw))
+        if res is None:
+            continue
+        if np.shape(res[0]) != (npos,) or np.shape(res[1]) != (npos,):
+            acc.violation('result-shape', f'do_photometry:image-{icls}', case(0, 'do_photometry'),
+                          [np.shape(res[0]), np.shape(res[1])], (npos,))
+            continue
+        if snap is not None and not (np.array_equal(snap[0], data) and np.array_equal(snap[1], err)
+                                     and data.dtype == snap[0].dtype and err.dtype == snap[1].dtype):
+            acc.violation('input-modified', f'do_photometry:image-{icls}', case(0, 'do_photometry'))
+        # how many cases can tell a float64 accumulation from one in the narrow float dtype of the image (measured:
+        # non-vacuity of the axis; never used by the oracle)
+        d_ = repr_dtype(rep)
+        if d_.kind == 'f' and d_.itemsize < 8 and not is_list and only_case is None:
+            if bits not in dense:
+                W = np.zeros((npos, ctx.ny, ctx.nx))
+                for k, (_, wl) in enumerate(ctx.reg):
+                    for iy, ix, w in (wl or ()):
+                        if w > 0 and not ((bits or 0) >> (iy * ctx.nx + ix)) & 1:
+                            W[k, iy, ix] = w
+                dense[bits] = W
+            W = dense[bits]
+            with np.errstate(all='ignore'):
+                wide = (W * np.asarray(data, dtype=np.float64)[None]).reshape(npos, -1).sum(axis=1)
+                nat = d_.newbyteorder('=')
+                narrow = (W.astype(nat) * np.asarray(data).astype(nat)[None]).reshape(npos, -1).sum(axis=1, dtype=nat).astype(np.float64)
+                scale = (W * np.abs(np.asarray(data, dtype=np.float64))[None]).reshape(npos, -1).sum(axis=1)
+            acc.counters['repr_cases_narrow_float_image'] += npos
+            acc.counters['repr_cases_where_narrow_accumulation_differs_beyond_tolerance'] += int(
+                np.sum(~(np.abs(narrow - wide) <= RTOL * scale)))
+        only = [only_case['pos_index']] if only_case else range(npos)
+        if only_case is None or only_case['form'] == 'do_photometry':
+            for k in only:
+                s, e, a, sabs, n = R.ref_sums(ctx.reg[k][1], dl, el, bits or 0, ctx.nx)
+                acc.evaluations += 1
+                if n:
+                    acc.nontrivial += 1
+                c = ctx.cls[k]
+                c = 'cut' if c.startswith('cut') else c
+                sfx = f':{c}' + (':mask' if bits else '')
+                if not R.same(res[0][k], s, RTOL * sabs + 1e-300):
+                    acc.violation('sum', f'do_photometry:image-{icls}{sfx}', case(k, 'do_photometry'), float(res[0][k]), s,
+                                  f'direct float64 sum over {n} pixels of the values stored as {rep} ({dv}); class {ctx.cls[k]}')
+                if not R.same(res[1][k], e, RTOL * (e if e == e and e != math.inf else 0.0) + 1e-300):
+                    acc.violation('sum_err', f'do_photometry:error-{ecls}{sfx}', case(k, 'do_photometry'), float(res[1][k]), e,
+                                  f'direct float64 quadrature sum over {n} pixels of the values stored as {erep} ({dv}); class {ctx.cls[k]}')
+            acc.outcome(f'repr:{icls}:{dv}')
+
+        if 'mask' in forms and not is_list and (only_case is None or only_case['form'] in ('get_values', 'multiply')):
+            key = f'repr|{rep}|{dv}'
+            ctx.lst[key] = dl
+            for k in only:
+                mk = ctx.masks[k]
+                box, wl = ctx.reg[k]
+                exp_vals = ctx.summed_values(k, bits, key)
+                acc.evaluations += 1
+                acc.nontrivial += bool(exp_vals)
+                got = rcall('get_values', lambda: mk.get_values(data, mask=mask))
+                if got is not None and not (np.asarray(got).dtype == np.float64 and bitsame(got, exp_vals)):
+                    acc.violation('get_values', f'get_values:image-{icls}' + (':mask' if bits else ''), case(k, 'get_values'),
+                                  [str(np.asarray(got).dtype), np.asarray(got, dtype=float).tolist()], ['float64', exp_vals],
+                                  f'w * float64(stored value) of every summed pixel, image stored as {rep} ({dv})')
+                if bits is None and wl is not None:
+                    gm = rcall('multiply', lambda: mk.multiply(data))
+                    if gm is not None:
+                        ixmin, ixmax, iymin, iymax = box
+                        exp = np.zeros((iymax - iymin, ixmax - ixmin))
+                        for iy, ix, w in wl:
+                            exp[iy - iymin, ix - ixmin] = w * dl[iy][ix]
+                        if not bitsame(gm, exp):
+                            acc.violation('multiply', f'multiply:image-{icls}', case(k, 'multiply'),
+                                          np.asarray(gm, dtype=float).tolist(), exp.tolist(),
+                                          f'w * float64(stored value) in the box, 0 outside the image; image stored as {rep} ({dv})')
+            del ctx.lst[key]
+
+        if 'table' in forms and (only_case is None or only_case['form'] == 'aperture_photometry'):
+            tbl = rcall('aperture_photometry', lambda: aperture_photometry(data, ctx.aper, error=err, mask=mask, **ctx.kw))
+            if tbl is not None:
+                n0 = len(acc.violations)
+                check_table(acc, ctx, bits, 'finite', True, f'aperture_photometry:image-{icls}', tbl, '', res, ctx.pos, group='repr')
+                for v in acc.violations[n0:]:
+                    v['case'].update(repr=rep, err_repr=erep, dvariant=dv, form='aperture_photometry')
+
+
+# ---------------------------------------------------------------------------
 def plan(tier, seed):
     units = []
     for si, shape in enumerate(shapes(tier)):
@@ -729,6 +981,7 @@ def run_unit(unit, tier, seed):
     ctx = Ctx(shapes(tier)[unit['shape']], aper_specs(tier)[unit['aper']], METHODS[unit['method']], seed)
     run_main(acc, ctx, tier)
     run_forms(acc, ctx, tier)
+    run_reprs(acc, ctx, tier)
     if (unit['shape'] * 7 + unit['aper'] * 3 + unit['method']) % 41 == 5:
         k = (unit['aper'] * 11) % len(ctx.pos)
         acc.samples.append(ctx.case(k, 1, VARIANTS[unit['aper'] % 3], True, 'do_photometry'))
@@ -740,6 +993,8 @@ def replay(case, seed):
     ctx = Ctx(tuple(case['shape']), case['aper'], tuple(case['method']), seed)
     if case.get('group', 'main') == 'main':
         run_main(acc, ctx, 'thorough', only_case=case)
+    elif case.get('group') == 'repr':
+        run_reprs(acc, ctx, 'thorough', only_case=case)
     else:
         run_forms(acc, ctx, 'thorough', only_case=case)
     k = case['pos_index']
@@ -764,6 +1019,14 @@ def describe(tier, seed):
                                    '(form error-nonfinite, direct oracle); blindness relations: NaN/+inf/-inf cycled over every '
                                    'masked pixel (list call) resp. every not-summed pixel (scalar apertures); the data there is 1e30 '
                                    'resp. +inf/-inf/NaN cycled one step ahead of the error'],
+                         'storage_representations': {
+                             'image_and_error': reprs(tier),
+                             'value_variants': {r: dvariants(r) for r in reprs(tier)},
+                             'bright_values': 'cancel: float16 3e4, float32/64 3e8, integers +-min(max, 2^62); pile: float16 4e4, '
+                                              'float32 3e38, integers min(max, 2^62 signed / 2^63 unsigned), bool True; at the centre '
+                                              'pixel and its raster successor',
+                             'combinations_per_unit_3x3': len(repr_product(Ctx((3, 3), ['circle', 1.2], METHODS[0], seed), tier)),
+                             'product': repr_product.__doc__.split('forms:')[1].strip()},
                          'call_forms': 'do_photometry/area_overlap (full product); scalar one-at-a-time, get_values/multiply, '
                                        'blindness (do_photometry list + scalar, get_values scalar), non-finite error map, linearity, aperture_photometry single on masks {None, centre pixel, all-but-centre}; '
                                        'blindness through scalar aperture_photometry on finite data x mask None x non-finite fill (thorough: every variant x mask x fill); '
